@@ -109,6 +109,7 @@ class Interp:
         self.next_static = 0x10000
         self.next_stack = 0x40000000
         self.trace = []
+        self._pending_regions = []
         self.steps = 0
         self.by_name = {}
         mods = [module] + list(extra_modules)
@@ -269,6 +270,16 @@ class Interp:
         return self.wrap(ty, v)
 
     def coerce_arg(self, ty, v):
+        if ty.is_blob:
+            if not (isinstance(v, tuple) and v[0] == "blob"):
+                raise Undefined("non-blob passed for blob parameter")
+            r = self.alloc_stack(max(ty.size, 1), max(ty.alignment, 1), "blobcopy")
+            r.size = ty.size
+            self.copy_blob(r.base, v[1], ty.size)
+            self._pending_regions.append(r)
+            return ("blob", r.base)
+        if isinstance(v, tuple):
+            raise Undefined("blob passed for scalar parameter")
         if isinstance(v, float) and (ty.is_integer or ty is self.ir.ptr):
             raise Undefined("float passed for integer parameter")
         if ty.is_integer or ty is self.ir.ptr:
@@ -305,13 +316,23 @@ class Interp:
         if len(args) != len(f.arguments):
             raise Undefined("call of %s with %d arguments, expects %d" % (f.name, len(args), len(f.arguments)))
         env = {}
+        self._pending_regions = []
         for p, a in zip(f.arguments, args):
             if a is UNDEF:
                 raise Undefined("undefined value passed as argument")
             env[p] = self.coerce_arg(p.ty, a)
-        frame_regions = []
+        frame_regions = self._pending_regions
+        self._pending_regions = []
         try:
-            return self._run(f, env, frame_regions, depth)
+            r = self._run(f, env, frame_regions, depth)
+            if isinstance(r, tuple) and r[0] == "blob":
+                # returned by value: copy out of the dying frame
+                ty = f.return_ty
+                t = self.alloc_stack(max(ty.size, 1), max(ty.alignment, 1), "blobret")
+                t.size = ty.size
+                self.copy_blob(t.base, r[1], ty.size)
+                r = ("blob", t.base)
+            return r
         finally:
             for r in frame_regions:
                 r.live = False
@@ -407,7 +428,10 @@ class Interp:
                     if t is ir.FunctionCall:
                         if r is None:
                             raise Undefined("function call to a procedure")
-                        env[ins] = self.coerce_arg(ins.ty, r) if not (isinstance(r, float) and ins.ty.is_integer) else UNDEF
+                        if ins.ty.is_blob:
+                            env[ins] = r
+                        else:
+                            env[ins] = self.coerce_arg(ins.ty, r) if not (isinstance(r, float) and ins.ty.is_integer) else UNDEF
                 elif t is ir.Undefined:
                     env[ins] = UNDEF
                 elif t is ir.LiteralData:
